@@ -3,6 +3,7 @@ import PytmeModel.Proofs.C08
 import Mathlib.Tactic.Ring
 import Mathlib.Tactic.Linarith
 import Mathlib.Tactic.FieldSimp
+import Mathlib.Data.Rat.Floor
 
 /-! # C08 — density files round-trip and subset reads equal slicing the full volume
 
@@ -592,5 +593,968 @@ example : (transposeArr ⟨[1, 2, 3], #[0, 1, 2, 3, 4, 5]⟩ [1, 2, 0]).shape = 
     (transposeArr ⟨[1, 2, 3], #[0, 1, 2, 3, 4, 5]⟩ [2, 0, 1]).toList = [0, 3, 1, 4, 2, 5] := by decide
 example : (match mrcLoadSubsetCrs ([9, 9] ++ payload 1 [0, 1, 2, 3, 4, 5]) 2 [1, 2, 3] 1 [2, 0, 1] [(1, 3), (0, 1), (1, 2)] with
     | .ok r => (r.shape, r.toList) | .err _ => ([], [])) = ([2, 1, 1], [4, 5]) := by decide
+
+/-! ## deepen3 — the `subset` argument as python slices -/
+
+/-- the binary readers take start and stop and never look at the step -/
+theorem sliceBounds_some (a b : Int) (st : Option Int) : sliceBounds ⟨some a, some b, st⟩ = some (a, b) := rfl
+
+/-- a `None` bound is the only way a slice is refused at this stage (`TypeError`) -/
+theorem sliceBounds_none_iff (s : PySlice) : sliceBounds s = none ↔ s.start = none ∨ s.stop = none := by
+  rcases s with ⟨_ | a, _ | b, st⟩ <;> simp [sliceBounds]
+
+/-- `slice.indices(n)` of an in-range `start ≤ stop` with step `None` or 1 is `(start, stop, 1)` -/
+theorem pyIndices_canonical (n a b : Nat) (st : Option Int) (hst : st = none ∨ st = some 1) (hab : a ≤ b) (hb : b ≤ n) :
+    pyIndices n ⟨some (a : Int), some (b : Int), st⟩ = some (a, b, 1) := by
+  have h1 : ¬ ((a : Int) < 0) := by omega
+  have h2 : ¬ ((b : Int) < 0) := by omega
+  rcases hst with rfl | rfl <;>
+    simp [pyIndices, h1, h2, Nat.min_eq_left (Nat.le_trans hab hb), Nat.min_eq_left hb]
+
+/-- `range(a, b, 1)` is `a, a+1, …, b-1` -/
+theorem pyRange_unit (a b : Nat) : pyRange (a, b, 1) = (List.range (b - a)).map (fun k => a + k) := by
+  simp [pyRange]
+
+/-- whatever the slice (None, negative, beyond the end, any positive step), python selects indices inside the axis -/
+theorem pyIndices_inside (n : Nat) (s : PySlice) (t : Nat × Nat × Nat) (h : pyIndices n s = some t) :
+    1 ≤ t.2.2 ∧ t.1 ≤ n ∧ t.2.1 ≤ n ∧ ∀ i ∈ pyRange t, i < n := by
+  unfold pyIndices at h
+  simp only at h
+  split at h
+  · simp at h
+  · rename_i hst
+    injection h with h
+    subst h
+    have hnorm : ∀ v : Int, (if v < 0 then (v + n).toNat else min v.toNat n) ≤ n := by
+      intro v; split <;> omega
+    have ha : (Option.map (fun v : Int => if v < 0 then (v + n).toNat else min v.toNat n) s.start).getD 0 ≤ n := by
+      cases s.start <;> simp [hnorm]
+    have hb : (Option.map (fun v : Int => if v < 0 then (v + n).toNat else min v.toNat n) s.stop).getD n ≤ n := by
+      cases s.stop <;> simp [hnorm]
+    refine ⟨by show 1 ≤ (s.step.getD 1).toNat; omega, ha, hb, ?_⟩
+    intro i hi
+    simp only [pyRange, List.mem_map, List.mem_range] at hi
+    obtain ⟨k, hk, rfl⟩ := hi
+    generalize (Option.map (fun v : Int => if v < 0 then (v + n).toNat else min v.toNat n) s.start).getD 0 = A at *
+    generalize (Option.map (fun v : Int => if v < 0 then (v + n).toNat else min v.toNat n) s.stop).getD n = B at *
+    generalize hS : (s.step.getD 1).toNat = S at *
+    have hS1 : 1 ≤ S := by omega
+    have h1 := (Nat.le_div_iff_mul_le (by omega : 0 < S)).mp (show k + 1 ≤ _ from hk)
+    have h2 : (k + 1) * S = k * S + S := Nat.succ_mul k S
+    show A + k * S < n
+    omega
+
+/-- numpy slicing with three in-range unit-step slices: extents `stop - start`, element `(i, j, k)` is element
+`(z0+i, y0+j, x0+k)` -/
+theorem pySliceArr_canonical (data : Array Nat) (nz ny nx z0 z1 y0 y1 x0 x1 : Nat) (s0 s1 s2 : Option Int)
+    (h0 : s0 = none ∨ s0 = some 1) (h1 : s1 = none ∨ s1 = some 1) (h2 : s2 = none ∨ s2 = some 1)
+    (hz : z0 ≤ z1 ∧ z1 ≤ nz) (hy : y0 ≤ y1 ∧ y1 ≤ ny) (hx : x0 ≤ x1 ∧ x1 ≤ nx) :
+    ∃ r, pySliceArr ⟨[nz, ny, nx], data⟩
+        [⟨some (z0 : Int), some (z1 : Int), s0⟩, ⟨some (y0 : Int), some (y1 : Int), s1⟩, ⟨some (x0 : Int), some (x1 : Int), s2⟩] = .ok r ∧
+      r.shape = [z1 - z0, y1 - y0, x1 - x0] ∧
+      ∀ i j k, i < z1 - z0 → j < y1 - y0 → k < x1 - x0 →
+        r.getD [i, j, k] 0 = (⟨[nz, ny, nx], data⟩ : Arr Nat).getD [z0 + i, y0 + j, x0 + k] 0 := by
+  unfold pySliceArr
+  simp only [List.length_cons, List.length_nil, Nat.lt_irrefl, if_false, List.range_succ, List.range_zero,
+    List.nil_append, List.cons_append, List.map_cons, List.map_nil, List.getD_cons_zero, List.getD_cons_succ,
+    Nat.reduceAdd, Nat.zero_add,
+    pyIndices_canonical nz z0 z1 s0 h0 hz.1 hz.2, pyIndices_canonical ny y0 y1 s1 h1 hy.1 hy.2,
+    pyIndices_canonical nx x0 x1 s2 h2 hx.1 hx.2]
+  simp only [List.mapM_cons, List.mapM_nil, id, Option.pure_def, Option.bind_eq_bind, Option.bind_some]
+  have hsel : List.map pyRange [(z0, z1, 1), (y0, y1, 1), (x0, x1, 1)] =
+      [(List.range (z1 - z0)).map (fun k => z0 + k), (List.range (y1 - y0)).map (fun k => y0 + k),
+       (List.range (x1 - x0)).map (fun k => x0 + k)] := by
+    simp only [List.map_cons, List.map_nil, pyRange_unit]
+  rw [hsel]
+  have hshape : List.map List.length [(List.range (z1 - z0)).map (fun k => z0 + k), (List.range (y1 - y0)).map (fun k => y0 + k),
+       (List.range (x1 - x0)).map (fun k => x0 + k)] = [z1 - z0, y1 - y0, x1 - x0] := by simp
+  rw [hshape]
+  refine ⟨_, rfl, rfl, ?_⟩
+  intro i j k hi hj hk
+  rw [Arr.getD_ofFn _ _ _ _ (by simp [inShape, hi, hj, hk])]
+  simp [List.getD_eq_getElem?_getD, hi, hj, hk]
+
+/-- **on every request the binary readers accept in the property's range, they agree with python slicing**: an EM
+sub-box given as three slices with in-range `start ≤ stop` and step `None` or 1 is read successfully and equals
+`volume[slices]` as numpy / h5py compute it (`pySliceArr`, the semantics `_load_hdf5` delegates to) -/
+theorem em_slices_eq_python_slicing (pre post : Bytes) (b nz ny nx : Nat) (data : List Nat)
+    (z0 z1 y0 y1 x0 x1 : Nat) (s0 s1 s2 : Option Int)
+    (h0 : s0 = none ∨ s0 = some 1) (h1 : s1 = none ∨ s1 = some 1) (h2 : s2 = none ∨ s2 = some 1)
+    (hlen : data.length = nz * ny * nx) (hv : ∀ v ∈ data, v < 256 ^ b)
+    (hz : z0 ≤ z1 ∧ z1 ≤ nz) (hy : y0 ≤ y1 ∧ y1 ≤ ny) (hx : x0 ≤ x1 ∧ x1 ≤ nx) :
+    ∃ r r', emLoadSlices (pre ++ payload b data ++ post) pre.length [nz, ny, nx] b
+        [⟨some (z0 : Int), some (z1 : Int), s0⟩, ⟨some (y0 : Int), some (y1 : Int), s1⟩, ⟨some (x0 : Int), some (x1 : Int), s2⟩] = .ok r ∧
+      pySliceArr ⟨[nz, ny, nx], data.toArray⟩
+        [⟨some (z0 : Int), some (z1 : Int), s0⟩, ⟨some (y0 : Int), some (y1 : Int), s1⟩, ⟨some (x0 : Int), some (x1 : Int), s2⟩] = .ok r' ∧
+      r.shape = r'.shape ∧
+      ∀ i j k, i < z1 - z0 → j < y1 - y0 → k < x1 - x0 → r.getD [i, j, k] 0 = r'.getD [i, j, k] 0 := by
+  obtain ⟨r, hr, hrs, hrg⟩ := loadSubset_eq_slice pre post b nz ny nx data z0 z1 y0 y1 x0 x1 hlen hv hz hy hx
+  obtain ⟨r', hr', hrs', hrg'⟩ := pySliceArr_canonical data.toArray nz ny nx z0 z1 y0 y1 x0 x1 s0 s1 s2 h0 h1 h2 hz hy hx
+  refine ⟨r, r', ?_, hr', by rw [hrs, hrs'], ?_⟩
+  · simpa [emLoadSlices, emSliceBox, sliceBounds] using hr
+  · intro i j k hi hj hk
+    rw [hrg i j k hi hj hk, hrg' i j k hi hj hk]
+
+/-- the same for MRC files (any item size, any extended header), also when the caller passes only the leading
+one or two slices: `_load_mrc` completes them with full axes, as python slicing does -/
+theorem mrc_slices_eq_python_slicing (pre post : Bytes) (b nz ny nx : Nat) (data : List Nat)
+    (z0 z1 y0 y1 x0 x1 : Nat) (s0 s1 s2 : Option Int)
+    (h0 : s0 = none ∨ s0 = some 1) (h1 : s1 = none ∨ s1 = some 1) (h2 : s2 = none ∨ s2 = some 1)
+    (hlen : data.length = nz * ny * nx) (hv : ∀ v ∈ data, v < 256 ^ b)
+    (hz : z0 ≤ z1 ∧ z1 ≤ nz) (hy : y0 ≤ y1 ∧ y1 ≤ ny) (hx : x0 ≤ x1 ∧ x1 ≤ nx) :
+    ∃ r r', mrcLoadSlices (pre ++ payload b data ++ post) pre.length [nz, ny, nx] b
+        [⟨some (z0 : Int), some (z1 : Int), s0⟩, ⟨some (y0 : Int), some (y1 : Int), s1⟩, ⟨some (x0 : Int), some (x1 : Int), s2⟩] = .ok r ∧
+      pySliceArr ⟨[nz, ny, nx], data.toArray⟩
+        [⟨some (z0 : Int), some (z1 : Int), s0⟩, ⟨some (y0 : Int), some (y1 : Int), s1⟩, ⟨some (x0 : Int), some (x1 : Int), s2⟩] = .ok r' ∧
+      r.shape = r'.shape ∧
+      ∀ i j k, i < z1 - z0 → j < y1 - y0 → k < x1 - x0 → r.getD [i, j, k] 0 = r'.getD [i, j, k] 0 := by
+  obtain ⟨r, hr, hrs, hrg⟩ := loadSubset_eq_slice pre post b nz ny nx data z0 z1 y0 y1 x0 x1 hlen hv hz hy hx
+  obtain ⟨r', hr', hrs', hrg'⟩ := pySliceArr_canonical data.toArray nz ny nx z0 z1 y0 y1 x0 x1 s0 s1 s2 h0 h1 h2 hz hy hx
+  refine ⟨r, r', ?_, hr', by rw [hrs, hrs'], ?_⟩
+  · simpa [mrcLoadSlices, mrcSliceBox, sliceBounds, List.range_succ] using hr
+  · intro i j k hi hj hk
+    rw [hrg i j k hi hj hk, hrg' i j k hi hj hk]
+
+/-- a short MRC request is the request completed with `slice(0, n)`; entries beyond the third are never looked at
+(not even a `None` in them) -/
+theorem mrcSliceBox_short (s0 s1 s2 extra : PySlice) (nz ny nx : Nat) :
+    mrcSliceBox [s0] [nz, ny, nx] = mrcSliceBox [s0, ⟨some 0, some (ny : Int), none⟩, ⟨some 0, some (nx : Int), none⟩] [nz, ny, nx] ∧
+    mrcSliceBox [s0, s1] [nz, ny, nx] = mrcSliceBox [s0, s1, ⟨some 0, some (nx : Int), none⟩] [nz, ny, nx] ∧
+    mrcSliceBox [s0, s1, s2, extra] [nz, ny, nx] = mrcSliceBox [s0, s1, s2] [nz, ny, nx] := by
+  simp [mrcSliceBox, List.range_succ]
+
+theorem length_mapM_sliceBounds : ∀ (l : List PySlice) (box : Box), l.mapM sliceBounds = some box → box.length = l.length
+  | [], box, h => by simp at h; subst h; rfl
+  | s :: l, box, h => by
+    rw [List.mapM_cons] at h
+    cases hs : sliceBounds s with
+    | none => simp [hs] at h
+    | some p =>
+      cases hl : l.mapM sliceBounds with
+      | none => simp [hs, hl] at h
+      | some bs =>
+        simp [hs, hl] at h
+        subst h
+        simp [length_mapM_sliceBounds l bs hl]
+
+/-- the EM reader does not complete: any other number of slices than three is refused -/
+theorem em_slices_wrong_length (f : Bytes) (header b nz ny nx : Nat) (sl : List PySlice) (hl : sl.length ≠ 3) :
+    ∃ e, emLoadSlices f header [nz, ny, nx] b sl = .err e := by
+  unfold emLoadSlices
+  cases hb : emSliceBox sl with
+  | none => exact ⟨_, rfl⟩
+  | some box =>
+    have hlen : box.length ≠ 3 := by
+      rw [length_mapM_sliceBounds sl box hb]; exact hl
+    have hfull : isFullBox box [nz, ny, nx] = false := by
+      cases hf : isFullBox box [nz, ny, nx]
+      · rfl
+      · exfalso
+        apply hlen
+        have := congrArg List.length (beq_iff_eq.mp hf)
+        simpa [boxShape] using this
+    simp only [loadSubset, hfull, Bool.false_eq_true, if_false, readSubset]
+    have hv : validateSlices box [nz, ny, nx] = some "Length" := by
+      unfold validateSlices
+      rw [if_pos (by simpa using hlen)]
+    rw [hv]
+    exact ⟨_, rfl⟩
+
+/-- **what is accepted**: a 3-slice request on which the binary readers return data lies inside the volume with
+`0 ≤ start ≤ stop ≤ n` on every axis — *or* its extents equal the volume's (`stop - start = n` on every axis), in
+which case the full-volume shortcut answers before any bound is looked at -/
+theorem loadSubset_ok_box (f : Bytes) (header b : Nat) (z0 z1 y0 y1 x0 x1 : Int) (nz ny nx : Nat) (r : Arr Nat)
+    (h : loadSubset f header [nz, ny, nx] b [(z0, z1), (y0, y1), (x0, x1)] = .ok r) :
+    ((0 ≤ z0 ∧ z0 ≤ z1 ∧ z1 ≤ nz) ∧ (0 ≤ y0 ∧ y0 ≤ y1 ∧ y1 ≤ ny) ∧ (0 ≤ x0 ∧ x0 ≤ x1 ∧ x1 ≤ nx)) ∨
+    (z1 - z0 = nz ∧ y1 - y0 = ny ∧ x1 - x0 = nx ∧ r.shape = [nz, ny, nx]) := by
+  unfold loadSubset at h
+  split at h
+  · rename_i hfull
+    right
+    simp [isFullBox, boxShape] at hfull
+    split at h
+    · simp at h
+    · injection h with h
+      subst h
+      exact ⟨hfull.1, hfull.2.1, hfull.2.2, rfl⟩
+  · left
+    exact readSubset_ok_inbounds f header b z0 z1 y0 y1 x0 x1 nz ny nx r h
+
+/-- today's readers on a full-sized box that is *shifted* out of the volume (`1:3, 1:4, 1:5` of a (2, 3, 4)
+volume): the shortcut returns the whole volume, where python slicing clips to extents (1, 2, 3) and
+`_validate_slices` would have refused; a step is ignored where python slicing honours it -/
+theorem shifted_full_box_and_step_witness :
+    (match loadSubset (payload 1 (List.range 24)) 0 [2, 3, 4] 1 [(1, 3), (1, 4), (1, 5)] with
+      | .ok r => (r.shape, r.toList) | .err _ => ([], [])) = ([2, 3, 4], List.range 24) ∧
+    validateSlices [(1, 3), (1, 4), (1, 5)] [2, 3, 4] = some "Exceeds" ∧
+    (match pySliceArr ⟨[2, 3, 4], (List.range 24).toArray⟩ [⟨some 1, some 3, none⟩, ⟨some 1, some 4, none⟩, ⟨some 1, some 5, none⟩] with
+      | .ok r => r.shape | .err _ => []) = [1, 2, 3] ∧
+    (match emLoadSlices (payload 1 (List.range 24)) 0 [2, 3, 4] 1 [⟨some 0, some 1, none⟩, ⟨some 0, some 1, none⟩, ⟨some 0, some 4, some 2⟩] with
+      | .ok r => (r.shape, r.toList) | .err _ => ([], [])) = ([1, 1, 4], [0, 1, 2, 3]) ∧
+    (match pySliceArr ⟨[2, 3, 4], (List.range 24).toArray⟩ [⟨some 0, some 1, none⟩, ⟨some 0, some 1, none⟩, ⟨some 0, some 4, some 2⟩] with
+      | .ok r => (r.shape, r.toList) | .err _ => ([], [])) = ([1, 1, 2], [0, 2]) ∧
+    (match pySliceArr ⟨[2, 3, 4], (List.range 24).toArray⟩ [⟨some (-1), none, none⟩, ⟨none, some (-2), none⟩, ⟨some 1, some 9, some 2⟩] with
+      | .ok r => (r.shape, r.toList) | .err _ => ([], [])) = ([1, 1, 2], [13, 15]) ∧
+    (match emLoadSlices (payload 1 (List.range 24)) 0 [2, 3, 4] 1 [⟨some (-1), some 2, none⟩, ⟨some 0, some 3, none⟩, ⟨some 0, some 4, none⟩] with
+      | .ok _ => "ok" | .err e => e) = "Negative" ∧
+    (match emLoadSlices (payload 1 (List.range 24)) 0 [2, 3, 4] 1 [⟨none, some 2, none⟩, ⟨some 0, some 3, none⟩, ⟨some 0, some 3, none⟩] with
+      | .ok _ => "ok" | .err e => e) = "TypeError" := by
+  refine ⟨by decide, by decide, by decide, by decide, by decide, by decide, by decide, by decide⟩
+
+/-! ## deepen3 — MRC data modes (`mrcfile.utils.dtype_from_mode` / `mode_from_dtype`) -/
+
+/-- reader's and writer's mode tables are inverse to each other on the six supported modes; `uint8` has no mode of
+its own and is widened to mode 6 (uint16) -/
+theorem mrc_modes_inverse :
+    (∀ p ∈ mrcModeTable, mrcModeOfDtype p.2.1 = some p.1 ∧ mrcModeDtype p.1 = some p.2.1 ∧ mrcModeSize p.1 = some p.2.2 ∧
+      (dtypeSize p.2.1 = none ∨ dtypeSize p.2.1 = some p.2.2)) ∧
+    mrcModeOfDtype "uint8" = some 6 ∧ mrcModeDtype 6 = some "uint16" ∧
+    mrcModeOfDtype "float64" = none ∧ mrcModeOfDtype "int32" = none := by
+  decide
+
+/-- exactly the modes 0, 1, 2, 4, 6, 12 have a dtype; their item sizes are 1, 2, 4, 8, 2, 2 -/
+theorem mrcModeSize_iff (mode b : Nat) :
+    mrcModeSize mode = some b ↔
+      (mode = 0 ∧ b = 1) ∨ (mode = 1 ∧ b = 2) ∨ (mode = 2 ∧ b = 4) ∨ (mode = 4 ∧ b = 8) ∨ (mode = 6 ∧ b = 2) ∨ (mode = 12 ∧ b = 2) := by
+  unfold mrcModeSize mrcModeTable
+  simp only [List.find?_cons, List.find?_nil]
+  by_cases h0 : mode = 0
+  · subst h0; simp; omega
+  by_cases h1 : mode = 1
+  · subst h1; simp; omega
+  by_cases h2 : mode = 2
+  · subst h2; simp; omega
+  by_cases h4 : mode = 4
+  · subst h4; simp; omega
+  by_cases h6 : mode = 6
+  · subst h6; simp; omega
+  by_cases h12 : mode = 12
+  · subst h12; simp; omega
+  · have e0 : ((0 : Nat) == mode) = false := by simpa using fun h => h0 h.symm
+    have e1 : ((1 : Nat) == mode) = false := by simpa using fun h => h1 h.symm
+    have e2 : ((2 : Nat) == mode) = false := by simpa using fun h => h2 h.symm
+    have e4 : ((4 : Nat) == mode) = false := by simpa using fun h => h4 h.symm
+    have e6 : ((6 : Nat) == mode) = false := by simpa using fun h => h6 h.symm
+    have e12 : ((12 : Nat) == mode) = false := by simpa using fun h => h12 h.symm
+    simp [e0, e1, e2, e4, e6, e12]
+    omega
+
+/-- **for every data mode `mrcfile` knows, with the item size of that mode**: the MRC sub-box read is the slice
+(any extended header); supersedes `mrc_subset_eq_slice` (mode 2) and instantiates `mrc_mode_subset_eq_slice` -/
+theorem mrc_every_mode_subset_eq_slice (mode b : Nat) (hm : mrcModeSize mode = some b)
+    (hdr ext : Bytes) (hh : hdr.length = 1024) (nz ny nx : Nat) (data : List Nat)
+    (z0 z1 y0 y1 x0 x1 : Nat)
+    (hlen : data.length = nz * ny * nx) (hv : ∀ v ∈ data, v < 256 ^ b)
+    (hz : z0 ≤ z1 ∧ z1 ≤ nz) (hy : y0 ≤ y1 ∧ y1 ≤ ny) (hx : x0 ≤ x1 ∧ x1 ≤ nx) :
+    0 < b ∧ ∃ r, loadSubset (hdr ++ ext ++ payload b data) (1024 + ext.length) [nz, ny, nx] b
+          [((z0 : Int), (z1 : Int)), ((y0 : Int), (y1 : Int)), ((x0 : Int), (x1 : Int))] = .ok r ∧
+      r.shape = [z1 - z0, y1 - y0, x1 - x0] ∧
+      ∀ i j k, i < z1 - z0 → j < y1 - y0 → k < x1 - x0 →
+        r.getD [i, j, k] 0 = (⟨[nz, ny, nx], data.toArray⟩ : Arr Nat).getD [z0 + i, y0 + j, x0 + k] 0 := by
+  refine ⟨?_, mrc_mode_subset_eq_slice hdr ext hh b nz ny nx data z0 z1 y0 y1 x0 x1 hlen hv hz hy hx⟩
+  have := (mrcModeSize_iff mode b).mp hm
+  omega
+
+/-! ## deepen3 — the MRC header under a permuted `mapc/mapr/maps` -/
+
+/-- with the standard order the general header read is `mrcRead` -/
+theorem mrcReadCrs_standard (h : MrcFields) (hc : h.mapcrs = [1, 2, 3]) : mrcReadCrs h = mrcRead h := by
+  unfold mrcReadCrs
+  cases hr : mrcRead h with
+  | err e => rfl
+  | ok p =>
+    have : p.crs = [0, 1, 2] := by
+      unfold mrcRead at hr
+      simp only [hc] at hr
+      split at hr
+      · simp at hr
+      · injection hr with hr; subst hr; rfl
+    simp [this]
+
+/-- round trip of shape, origin, sampling rate through the general header read (corollary of `mrc_roundtrip_fields`) -/
+theorem mrcReadCrs_roundtrip (nz ny nx : Nat) (oz oy ox sz sy sx : Rat)
+    (hz : 0 < nz) (hy : 0 < ny) (hx : 0 < nx)
+    (ho : allTiny [oz, oy, ox] = false ∨ (rint (oz / sz) = 0 ∧ rint (oy / sy) = 0 ∧ rint (ox / sx) = 0)) :
+    mrcReadCrs (mrcFields [nz, ny, nx] [oz, oy, ox] [sz, sy, sx])
+      = .ok ⟨[nz, ny, nx], [oz, oy, ox], [sz, sy, sx], 1024, [0, 1, 2]⟩ := by
+  rw [mrcReadCrs_standard _ (by simp [mrcFields])]
+  exact mrc_roundtrip_fields nz ny nx oz oy ox sz sy sx hz hy hx ho
+
+/-- **header read for each of the six axis orders**: shape and origin are reported through the same permutation as
+the voxel data (`transposeArr … crs`), the payload starts after `1024 + nsymbt` bytes; the sampling rate is reported
+in file order (not permuted — see `mrc_crs_rate_unpermuted_witness`).  Origin not within 1e-8 of zero (else the
+start-index rule of `mrcRead` applies). -/
+theorem mrcReadCrs_permuted (crs : List Nat)
+    (hcrs : crs ∈ [[0, 1, 2], [0, 2, 1], [1, 0, 2], [1, 2, 0], [2, 0, 1], [2, 1, 0]])
+    (nz ny nx mz my mx mode nsymbt : Nat) (st : List Int) (cx cy cz ox oy oz : Rat)
+    (ho : allTiny [oz, oy, ox] = false) (data : Array Nat) :
+    mrcReadCrs ⟨[nx, ny, nz], mode, st, [mx, my, mz], [cx, cy, cz], crs.map (· + 1), [ox, oy, oz], nsymbt⟩
+      = .ok ⟨(transposeArr ⟨[nz, ny, nx], data⟩ crs).shape, permute crs [oz, oy, ox] 0,
+             [cz / mz, cy / my, cx / mx], 1024 + nsymbt, crs⟩ := by
+  simp only [List.mem_cons, List.not_mem_nil, or_false] at hcrs
+  rcases hcrs with rfl | rfl | rfl | rfl | rfl | rfl <;>
+    simp [mrcReadCrs, mrcRead, ho, zipDiv, transposeArr, Arr.ofFn, permute]
+
+/-- today's reader on a (2, 3, 4)-voxel file with voxel sizes (z, y, x) = (3, 2, 1) Å and `mapc/mapr/maps = 2, 1, 3`:
+the volume comes back with extents (3, 2, 4) and the origin permuted alike, the sampling rate stays (3, 2, 1) -/
+theorem mrc_crs_rate_unpermuted_witness :
+    (match mrcReadCrs ⟨[4, 3, 2], 2, [0, 0, 0], [4, 3, 2], [4, 6, 6], [2, 1, 3], [10, 20, 30], 0⟩ with
+      | .ok p => (p.shape, p.origin, p.rate) | .err _ => ([], [], [])) = ([3, 2, 4], [20, 30, 10], [3, 2, 1]) := by
+  decide +kernel
+
+/-! ## deepen3 — EM files: unknown type codes, headers of non-3-D volumes -/
+
+/-- the item size `_load_em` reads with is the table's for a listed code and 8 (float64) for every other one; for
+whatever dtype a density is held in, it is the item size of what `_save_em` put on disk -/
+theorem emReadItemsize_spec (code : Nat) :
+    (∀ b, emItemsize code = some b → emReadItemsize code = b) ∧ (emItemsize code = none → emReadItemsize code = 8) ∧
+    (∀ dtype : String, some (emReadItemsize (emWriteCode dtype)) = dtypeSize (emWriteDtype dtype)) := by
+  refine ⟨fun b h => by simp [emReadItemsize, h], fun h => by simp [emReadItemsize, h], fun dtype => ?_⟩
+  obtain ⟨_, h2, h3⟩ := em_write_code_describes_payload dtype
+  cases hs : dtypeSize (emWriteDtype dtype) with
+  | none => simp [hs] at h3
+  | some b => simp [emReadItemsize, h2, hs]
+
+/-- **a sub-box of an EM file is the slice whatever type code the header carries** — listed or not, the reader
+takes the dimensions from the header and reads items of `emReadItemsize code` bytes (8 for an unknown code) -/
+theorem em_subset_any_code_eq_slice (code nz ny nx : Nat) (rate : Int) (data : List Nat)
+    (z0 z1 y0 y1 x0 x1 : Nat)
+    (hdz : nz < 2147483648) (hdy : ny < 2147483648) (hdx : nx < 2147483648)
+    (hr1 : -2147483648 ≤ rate) (hr2 : rate < 2147483648)
+    (hlen : data.length = nz * ny * nx) (hv : ∀ v ∈ data, v < 256 ^ emReadItemsize code)
+    (hz : z0 ≤ z1 ∧ z1 ≤ nz) (hy : y0 ≤ y1 ∧ y1 ≤ ny) (hx : x0 ≤ x1 ∧ x1 ≤ nx) :
+    ∃ r, emLoadSubsetAny (emEncode code (emReadItemsize code) [nz, ny, nx] rate data)
+          [((z0 : Int), (z1 : Int)), ((y0 : Int), (y1 : Int)), ((x0 : Int), (x1 : Int))] = .ok r ∧
+      r.shape = [z1 - z0, y1 - y0, x1 - x0] ∧
+      ∀ i j k, i < z1 - z0 → j < y1 - y0 → k < x1 - x0 →
+        r.getD [i, j, k] 0 = (⟨[nz, ny, nx], data.toArray⟩ : Arr Nat).getD [z0 + i, y0 + j, x0 + k] 0 := by
+  unfold emLoadSubsetAny
+  rw [emParse_emEncode code _ nz ny nx rate data hdz hdy hdx hr1 hr2]
+  exact em_subset_eq_slice code (emReadItemsize code) nz ny nx rate data z0 z1 y0 y1 x0 x1 hlen hv hz hy hx
+
+/-- `_save_em` writes one dimension word per axis of the density: the header has `500 + 4·rank` bytes for a volume
+of any rank, the 512 bytes `_load_em` skips exactly for rank 3 -/
+theorem emHeader_length_rank (code : Nat) (shape : List Nat) (rate : Int) :
+    (emHeader code shape rate).length = emHeaderLen shape.length ∧ (emHeaderLen shape.length = 512 ↔ shape.length = 3) := by
+  constructor
+  · unfold emHeader emUserParams emHeaderLen
+    simp only [List.length_append, length_payload, length_spaces, List.length_map, List.length_range, List.length_cons,
+      List.length_nil]
+    rw [length_flatMap_const shape.reverse (leBytes 4) 4 (fun v _ => length_leBytes 4 v), List.length_reverse]
+    omega
+  · unfold emHeaderLen; omega
+
+/-- today's writer on a 2-D density (2, 3): the header is 508 bytes, so the reader takes the first four padding
+blanks for the slowest dimension (0x20202020 = 538976288) and starts the payload 4 bytes late — `to_file` does not
+refuse a non-3-D density for the EM format -/
+theorem em_rank2_witness :
+    (emHeader 5 [2, 3] 1000).length = 508 ∧
+    (emParse (emEncode 5 4 [2, 3] 1000 [1, 2, 3, 4, 5, 6])).map (·.shape) = some [538976288, 2, 3] := by
+  set_option maxRecDepth 20000 in decide
+
+/-! ## deepen3 — format dispatch: exact characterisation, `.gz` handling, case -/
+
+/-- which names select which format, exactly -/
+theorem saveFmt_iff (name : List Char) :
+    (saveFmt name = .em ↔ (endsWith name "em".toList = true ∨ endsWith name "em.gz".toList = true)) ∧
+    (saveFmt name = .h5 ↔ (¬ (endsWith name "em".toList = true ∨ endsWith name "em.gz".toList = true) ∧
+      (endsWith name "h5".toList = true ∨ endsWith name "h5.gz".toList = true))) := by
+  unfold saveFmt
+  generalize endsWith name "em".toList = a
+  generalize endsWith name "em.gz".toList = b
+  generalize endsWith name "h5".toList = c
+  generalize endsWith name "h5.gz".toList = d
+  cases a <;> cases b <;> cases c <;> cases d <;> simp
+
+/-- `to_file(name, gzip)` applied to its own final name changes nothing (".gz" is appended at most once) -/
+theorem finalName_idem (name : List Char) (gzip : Bool) : finalName (finalName name gzip) gzip = finalName name gzip := by
+  cases gzip with
+  | false => simp [finalName]
+  | true =>
+    have h := (finalName_spec name).2
+    show (if (true && !(endsWith (finalName name true) ".gz".toList)) = true then _ else _) = _
+    rw [h]
+    rfl
+
+/-- the dispatch is by suffix, not by extension, and case-sensitive: no dot is needed ("stem" is an EM file), upper-case
+extensions fall through to MRC, an upper-case ".GZ" gets a second ".gz" -/
+theorem dispatch_suffix_witness :
+    saveFmt "stem".toList = .em ∧ saveFmt "oh5".toList = .h5 ∧ saveFmt "a.EM".toList = .mrc ∧ saveFmt "a.H5".toList = .mrc ∧
+    saveFmt "a.em.GZ".toList = .mrc ∧ finalName "a.mrc.GZ".toList true = "a.mrc.GZ.gz".toList ∧
+    saveFmt "a.em.bak".toList = .mrc ∧ saveFmt "a.em.gz.gz".toList = .mrc ∧ saveFmt "a.hdf5".toList = .mrc ∧
+    loadFmt "theorem.h5".toList = .h5 ∧ loadFmt "xh5.em.gz".toList = .em := by
+  decide
+
+example : mrcModeSize 12 = some 2 ∧ mrcModeSize 4 = some 8 ∧ mrcModeSize 3 = none ∧ mrcModeSize 101 = none := by decide
+example : emReadItemsize 5 = 4 ∧ emReadItemsize 7 = 8 ∧ emReadItemsize 200 = 8 := by decide
+example : emHeaderLen 3 = 512 ∧ emHeaderLen 2 = 508 ∧ emHeaderLen 4 = 516 := by decide
+example : allTiny [30, 20, 10] = false := by decide +kernel
+example : pyIndices 4 ⟨some (-1), none, none⟩ = some (3, 4, 1) ∧ pyIndices 4 ⟨some 1, some 9, some 2⟩ = some (1, 4, 2) ∧
+    pyRange (1, 4, 2) = [1, 3] ∧ pyIndices 4 ⟨none, none, some 0⟩ = none ∧ pyIndices 4 ⟨some (-9), some (-1), none⟩ = some (0, 3, 1) := by decide
+example : mrcSliceBox [⟨some 1, some 2, some 5⟩] [2, 3, 4] = some [(1, 2), (0, 3), (0, 4)] ∧
+    mrcSliceBox [⟨none, some 2, none⟩] [2, 3, 4] = none ∧ emSliceBox [⟨some 1, some 2, none⟩] = some [(1, 2)] := by decide
+example : (match emLoadSubsetAny (emEncode 7 8 [1, 1, 2] 1000 [4607182418800017408, 4611686018427387904]) [(0, 1), (0, 1), (1, 2)] with
+    | .ok r => (r.shape, r.toList) | .err _ => ([], [])) = ([1, 1, 1], [4611686018427387904]) := by
+  set_option maxRecDepth 20000 in decide
+
+example : ∃ r r', emLoadSlices ([9, 9] ++ payload 2 (List.range 12) ++ [7]) 2 [2, 2, 3] 2
+      [⟨some 1, some 2, none⟩, ⟨some 0, some 2, some 1⟩, ⟨some 1, some 3, none⟩] = .ok r ∧
+    pySliceArr ⟨[2, 2, 3], (List.range 12).toArray⟩ [⟨some 1, some 2, none⟩, ⟨some 0, some 2, some 1⟩, ⟨some 1, some 3, none⟩] = .ok r' ∧
+    r.shape = r'.shape ∧ ∀ i j k, i < 2 - 1 → j < 2 - 0 → k < 3 - 1 → r.getD [i, j, k] 0 = r'.getD [i, j, k] 0 :=
+  em_slices_eq_python_slicing [9, 9] [7] 2 2 2 3 (List.range 12) 1 2 0 2 1 3 none (some 1) none (Or.inl rfl) (Or.inr rfl) (Or.inl rfl)
+    (by decide) (by decide) (by decide) (by decide) (by decide)
+example := mrc_slices_eq_python_slicing (List.replicate 1028 0) [] 1 2 2 3 (List.range 12) 0 1 1 2 0 3 (some 1) none none
+    (Or.inr rfl) (Or.inl rfl) (Or.inl rfl) (by decide) (by decide) (by decide) (by decide) (by decide)
+example : ∃ e, emLoadSlices [] 512 [2, 3, 4] 4 [⟨some 0, some 1, none⟩] = .err e :=
+  em_slices_wrong_length [] 512 4 2 3 4 _ (by decide)
+example := mrc_every_mode_subset_eq_slice 12 2 (by decide) (List.replicate 1024 0) [1, 2, 3, 4] List.length_replicate 2 2 3 (List.range 12)
+    1 2 0 2 1 3 (by decide) (by decide) (by decide) (by decide) (by decide)
+example := mrcReadCrs_permuted [1, 2, 0] (by decide) 2 3 4 2 3 4 12 80 [0, 0, 0] 4 6 6 10 20 30 (by decide +kernel) #[]
+example := em_subset_any_code_eq_slice 7 1 2 2 1500 [1, 2, 3, 18446744073709551615] 0 1 1 2 0 2 (by decide) (by decide) (by decide)
+    (by decide) (by decide) (by decide) (by decide) (by decide) (by decide) (by decide)
+example : loadSubset (payload 1 (List.range 24)) 0 [2, 3, 4] 1 [(0, 1), (1, 3), (2, 4)] = .ok ⟨[1, 2, 2], #[6, 7, 10, 11]⟩ ∧
+    pyRange (2, 4, 1) = [2, 3] := by
+  constructor
+  · rfl
+  · decide
+example : mrcReadCrs (mrcFields [2, 3, 4] [3 / 2, -9 / 4, 3] [3 / 2, 2, 1 / 2])
+    = .ok ⟨[2, 3, 4], [3 / 2, -9 / 4, 3], [3 / 2, 2, 1 / 2], 1024, [0, 1, 2]⟩ :=
+  mrcReadCrs_roundtrip 2 3 4 _ _ _ _ _ _ (by decide) (by decide) (by decide) (Or.inl (by decide +kernel))
+example : finalName (finalName "a.em".toList true) true = "a.em.gz".toList := by decide
+
+/-! ## deepen3 — byte offsets for any rank; the MRC round trip without side condition -/
+
+/-- **offset of element `idx` = header + itemsize · ravel(idx)**, for a C-ordered payload of any rank, item size,
+header and trailing bytes: the token at that offset is the element -/
+theorem element_offset_any_rank (pre post : Bytes) (b : Nat) (shape idx : List Nat) (data : List Nat)
+    (hlen : data.length = prodL shape) (hv : ∀ v ∈ data, v < 256 ^ b) (hin : inShape shape idx = true) :
+    rdTok (pre ++ payload b data ++ post) (pre.length + flatIdx shape idx * b) b
+      = (⟨shape, data.toArray⟩ : Arr Nat).getD idx 0 := by
+  have hlt : flatIdx shape idx < data.length := by rw [hlen]; exact flatIdx_lt hin
+  rw [rdTok_file pre post b data _ hlt (hv _ (List.getElem_mem hlt))]
+  simp only [Arr.getD, hin, if_true, Array.getD_eq_getD_getElem?, List.getElem?_toArray, ← List.getD_eq_getElem?_getD]
+  rw [List.getD_eq_getElem _ _ hlt]
+
+/-- the row offsets `_read_binary_subset` seeks to are that formula for rank 3 -/
+theorem rowOffset_eq_ravel (header nz ny nx b z y x0 : Nat) :
+    rowOffset header ny nx b z y x0 = header + flatIdx [nz, ny, nx] [z, y, x0] * b := by
+  simp [rowOffset, flatIdx, prodL]
+  ring
+
+/-- **MRC round trip of the header fields for every origin** (no side condition): shape, sampling rate, payload offset
+and axis order always come back; the origin comes back unless it is within 1e-8 of zero while some start index
+`rint(origin / rate)` is non-zero, in which case `start × rate` is reported (the known finding, stated exactly);
+`mrc_roundtrip_fields` is the corollary for the other case -/
+theorem mrc_roundtrip_fields_exact (nz ny nx : Nat) (oz oy ox sz sy sx : Rat)
+    (hz : 0 < nz) (hy : 0 < ny) (hx : 0 < nx) :
+    mrcRead (mrcFields [nz, ny, nx] [oz, oy, ox] [sz, sy, sx])
+      = .ok ⟨[nz, ny, nx],
+          (if allTiny [oz, oy, ox] && !([rint (oz / sz), rint (oy / sy), rint (ox / sx)].all (· == 0))
+            then [(rint (oz / sz) : Rat) * sz, (rint (oy / sy) : Rat) * sy, (rint (ox / sx) : Rat) * sx] else [oz, oy, ox]),
+          [sz, sy, sx], 1024, [0, 1, 2]⟩ := by
+  have hz' : (nz : Rat) ≠ 0 := by exact_mod_cast hz.ne'
+  have hy' : (ny : Rat) ≠ 0 := by exact_mod_cast hy.ne'
+  have hx' : (nx : Rat) ≠ 0 := by exact_mod_cast hx.ne'
+  unfold mrcRead mrcFields
+  simp only [List.map_cons, List.map_nil, List.reverse_cons, List.reverse_nil, List.nil_append, List.cons_append,
+    List.zipWith_cons_cons, List.zipWith_nil_right, zipMul, zipDiv]
+  simp only [mul_div_cancel_right₀ _ hz', mul_div_cancel_right₀ _ hy', mul_div_cancel_right₀ _ hx']
+  generalize (allTiny [oz, oy, ox] && !([rint (oz / sz), rint (oy / sy), rint (ox / sx)].all (· == 0))) = c
+  cases c <;> simp
+
+example : rdTok ([9, 9] ++ payload 2 (List.range 24) ++ [1]) (2 + flatIdx [2, 3, 4] [1, 2, 3] * 2) 2 = 23 := by decide
+example : rowOffset 1024 3 4 2 1 2 3 = 1024 + 23 * 2 := by decide
+example : (allTiny [63 / 12500000000, 0, 0] && !([rint ((63 / 12500000000 : Rat) / (1 / 10000000000)), rint ((0 : Rat) / (1 / 10000000000)),
+    rint ((0 : Rat) / (1 / 10000000000))].all (· == 0))) = true ∧ allTiny [3 / 2, 0, 0] = false := by decide +kernel
+
+
+/-! ## deepen3 — short reads on truncated files, as coded -/
+
+/-- a row that lies inside the file is read whole -/
+theorem readRowExact_complete (f : Bytes) (off k b : Nat) (hb : 0 < b) (h : off + k * b ≤ f.length) :
+    readRowExact f off k b = some (readRow f off k b) := by
+  unfold readRowExact
+  have h1 : min (k * b) (f.length - off) = k * b := by omega
+  simp only [h1, Nat.mul_mod_left, ne_eq, not_true_eq_false, if_false, Nat.mul_div_cancel _ hb, if_true]
+
+/-- what a row read can return: the row, or — when exactly one item is left in the file — that item repeated -/
+theorem readRowExact_outcomes (f : Bytes) (off k b : Nat) (r : List Nat) (h : readRowExact f off k b = some r) :
+    r.length = k ∧ (r = readRow f off k b ∨ r = List.replicate k (rdTok f off b)) := by
+  unfold readRowExact at h
+  simp only at h
+  split at h
+  · simp at h
+  · split at h
+    · injection h with h; subst h; exact ⟨length_readRow _ _ _ _, Or.inl rfl⟩
+    · split at h
+      · injection h with h; subst h; exact ⟨by simp, Or.inr rfl⟩
+      · simp at h
+
+theorem optFlat_map_some {α : Type} (l : List α) (g : α → List Nat) :
+    optFlat (l.map (fun x => some (g x))) = some (l.flatMap g) := by
+  induction l with
+  | nil => rfl
+  | cons a l ih =>
+    have : optFlat ((a :: l).map (fun x => some (g x))) =
+        (match some (g a), optFlat (l.map (fun x => some (g x))) with
+          | some a, some r => some (a ++ r)
+          | _, _ => none) := rfl
+    rw [this, ih]
+    simp [List.flatMap_cons]
+
+/-- on a file that holds the whole payload every row of every in-range box is read whole -/
+theorem readRowsExact_complete (f : Bytes) (header nz ny nx b z0 z1 y0 y1 x0 x1 : Nat) (hb : 0 < b)
+    (hf : header + nz * ny * nx * b ≤ f.length) (hz : z1 ≤ nz) (hy : y1 ≤ ny) (hx : x0 ≤ x1 ∧ x1 ≤ nx) :
+    readRowsExact f header ny nx b z0 z1 y0 y1 x0 x1 = some (readRows f header ny nx b z0 z1 y0 y1 x0 x1) := by
+  unfold readRowsExact readRows
+  have hrow : ∀ i ∈ List.range (z1 - z0), ∀ j ∈ List.range (y1 - y0),
+      readRowExact f (rowOffset header ny nx b (z0 + i) (y0 + j) x0) (x1 - x0) b
+        = some (readRow f (rowOffset header ny nx b (z0 + i) (y0 + j) x0) (x1 - x0) b) := by
+    intro i hi j hj
+    simp only [List.mem_range] at hi hj
+    apply readRowExact_complete _ _ _ _ hb
+    have := box_inside nz ny nx (z0 + i + 1) (y0 + j + 1) x0 x1 b (by omega) (by omega) hx.2 (by omega) (by omega) hx.1
+    simp only [Nat.add_sub_cancel] at this
+    unfold rowOffset
+    have e : (z0 + i) * ny * (nx * b) + (y0 + j) * (nx * b) = ((z0 + i) * ny + (y0 + j)) * nx * b := by ring
+    omega
+  have hinner : ∀ i ∈ List.range (z1 - z0),
+      optFlat ((List.range (y1 - y0)).map (fun j =>
+        readRowExact f (rowOffset header ny nx b (z0 + i) (y0 + j) x0) (x1 - x0) b))
+      = some ((List.range (y1 - y0)).flatMap (fun j =>
+        readRow f (rowOffset header ny nx b (z0 + i) (y0 + j) x0) (x1 - x0) b)) := by
+    intro i hi
+    rw [List.map_congr_left (fun j hj => hrow i hi j hj)]
+    exact optFlat_map_some _ _
+  rw [List.map_congr_left hinner]
+  exact optFlat_map_some _ _
+
+/-- **the item-by-item reader is the row reader of the theorems above on every file that holds the whole payload**,
+for every box (accepted or refused): short reads only matter for truncated files -/
+theorem readSubsetExact_eq_readSubset (f : Bytes) (header b nz ny nx : Nat) (box : Box) (hb : 0 < b)
+    (hf : header + nz * ny * nx * b ≤ f.length) :
+    readSubsetExact f header [nz, ny, nx] b box = readSubset f header [nz, ny, nx] b box := by
+  unfold readSubsetExact readSubset
+  cases hv : validateSlices box [nz, ny, nx] with
+  | some e => rfl
+  | none =>
+    simp only
+    match box, hv with
+    | [(z0, z1), (y0, y1), (x0, x1)], hv =>
+      have hs := validate_sound z0 z1 y0 y1 x0 x1 nz ny nx hv
+      simp only
+      by_cases hneg : z1 < z0 ∨ y1 < y0 ∨ x1 < x0
+      · simp [hneg]
+      · rw [if_neg hneg, if_neg hneg]
+        have hrows := readRowsExact_complete f header nz ny nx b z0.toNat z1.toNat y0.toNat y1.toNat x0.toNat x1.toNat hb hf
+          (by omega) (by omega) (by omega)
+        simp only [hrows]
+        rw [if_neg]
+        rintro ⟨h1, h2, h3, h4⟩
+        have := box_inside nz ny nx z1.toNat y1.toNat x0.toNat x1.toNat b (by omega) (by omega) (by omega) (by omega) (by omega) (by omega)
+        unfold rowOffset at h4
+        have e : (z1.toNat - 1) * ny * (nx * b) + (y1.toNat - 1) * (nx * b) = ((z1.toNat - 1) * ny + (y1.toNat - 1)) * nx * b := by ring
+        omega
+    | [], hv => rfl
+    | [_], hv => rfl
+    | [_, _], hv => rfl
+    | _ :: _ :: _ :: _ :: _, hv => rfl
+
+theorem loadSubsetExact_eq_loadSubset (f : Bytes) (header b nz ny nx : Nat) (box : Box) (hb : 0 < b)
+    (hf : header + nz * ny * nx * b ≤ f.length) :
+    loadSubsetExact f header [nz, ny, nx] b box = loadSubset f header [nz, ny, nx] b box := by
+  unfold loadSubsetExact loadSubset
+  rw [readSubsetExact_eq_readSubset f header b nz ny nx box hb hf]
+
+/-- **sub-box = slice for the reader exactly as coded** (corollary of `loadSubset_eq_slice`) -/
+theorem loadSubsetExact_eq_slice (pre post : Bytes) (b nz ny nx : Nat) (data : List Nat) (hb : 0 < b)
+    (z0 z1 y0 y1 x0 x1 : Nat)
+    (hlen : data.length = nz * ny * nx) (hv : ∀ v ∈ data, v < 256 ^ b)
+    (hz : z0 ≤ z1 ∧ z1 ≤ nz) (hy : y0 ≤ y1 ∧ y1 ≤ ny) (hx : x0 ≤ x1 ∧ x1 ≤ nx) :
+    ∃ r, loadSubsetExact (pre ++ payload b data ++ post) pre.length [nz, ny, nx] b
+          [((z0 : Int), (z1 : Int)), ((y0 : Int), (y1 : Int)), ((x0 : Int), (x1 : Int))] = .ok r ∧
+      r.shape = [z1 - z0, y1 - y0, x1 - x0] ∧
+      ∀ i j k, i < z1 - z0 → j < y1 - y0 → k < x1 - x0 →
+        r.getD [i, j, k] 0 = (⟨[nz, ny, nx], data.toArray⟩ : Arr Nat).getD [z0 + i, y0 + j, x0 + k] 0 := by
+  rw [loadSubsetExact_eq_loadSubset _ _ _ _ _ _ _ hb (by simp [length_payload, hlen])]
+  exact loadSubset_eq_slice pre post b nz ny nx data z0 z1 y0 y1 x0 x1 hlen hv hz hy hx
+
+/-- today's reader on a (2, 3, 4) volume whose file lost its last voxel: the row `[1, 2, 2:4]` holds 23, 24; one item
+is left in the file, numpy broadcasts it, and the caller gets 23, 23 without an error; with two voxels lost the
+same request is refused.  (Outside the property: `to_file` never writes a truncated file.) -/
+theorem truncated_row_broadcast_witness :
+    (match loadSubsetExact (payload 1 (List.range 23)) 0 [2, 3, 4] 1 [(1, 2), (2, 3), (2, 4)] with
+      | .ok r => (r.shape, r.toList) | .err _ => ([], [])) = ([1, 1, 2], [22, 22]) ∧
+    (match loadSubsetExact (payload 1 (List.range 24)) 0 [2, 3, 4] 1 [(1, 2), (2, 3), (2, 4)] with
+      | .ok r => (r.shape, r.toList) | .err _ => ([], [])) = ([1, 1, 2], [22, 23]) ∧
+    (match loadSubsetExact (payload 1 (List.range 22)) 0 [2, 3, 4] 1 [(1, 2), (2, 3), (2, 4)] with
+      | .ok _ => "ok" | .err e => e) = "ShortRead" ∧
+    (match loadSubset (payload 1 (List.range 23)) 0 [2, 3, 4] 1 [(1, 2), (2, 3), (2, 4)] with
+      | .ok _ => "ok" | .err e => e) = "ShortRead" := by
+  decide
+
+example : readRowExact (payload 2 [1, 2, 3]) 2 2 2 = some [2, 3] ∧ readRowExact (payload 2 [1, 2, 3]) 4 2 2 = some [3, 3] ∧
+    readRowExact (payload 2 [1, 2, 3] ++ [0]) 4 2 2 = none ∧ readRowExact (payload 2 [1, 2, 3]) 6 2 2 = none ∧
+    readRowExact (payload 2 [1, 2, 3]) 6 0 2 = some [] := by decide
+example := readSubsetExact_eq_readSubset ([9, 9] ++ payload 2 (List.range 24) ++ [1]) 2 2 2 3 4 [(1, 2), (0, 2), (1, 9)] (by decide) (by decide)
+example := loadSubsetExact_eq_slice [9, 9] [1] 2 2 3 4 (List.range 24) (by decide) 1 2 0 2 1 3 (by decide) (by decide) (by decide) (by decide) (by decide)
+
+
+/-! ## deepen3 — the EM sampling-rate word -/
+
+/-- **EM sampling rate to the precision of the format**: a rate of at least 0.001 Å is stored as a whole number of
+1/1000 Å (truncated) and read back at most 0.001 Å too small, never too large -/
+theorem em_rate_roundtrip_precision (q : Rat) (h : 1 / 1000 ≤ q) :
+    emRateRead (emRateMilliOf q) ≤ q ∧ q - emRateRead (emRateMilliOf q) < 1 / 1000 ∧
+    emRateRead (emRateMilliOf q) = (emRateOut (emRateMilliOf q) : Rat) / 1000 := by
+  have hq : 0 ≤ q := by linarith
+  have hm : emRateMilliOf q = (q * 1000).floor := by simp [emRateMilliOf, hq]
+  have h1 : (1 : Int) ≤ (q * 1000).floor := Rat.le_floor_iff.mpr (by push_cast; linarith)
+  have hne : (q * 1000).floor ≠ 0 := by omega
+  have hle : (((q * 1000).floor : Int) : Rat) ≤ q * 1000 := Rat.floor_le _
+  have hlt : q * 1000 < (((q * 1000).floor : Int) : Rat) + 1 := by
+    have := Rat.lt_floor_add_one (q * 1000)
+    push_cast at this
+    exact this
+  rw [hm]
+  simp only [emRateRead, emRateOut, hne, if_false]
+  refine ⟨by linarith, by linarith, trivial⟩
+
+/-- a whole number of 1/1000 Å (any sign, any size) is stored and read back exactly — unless it is 0 -/
+theorem em_rate_roundtrip_exact (m : Int) (hm : m ≠ 0) : emRateRead (emRateMilliOf ((m : Rat) / 1000)) = (m : Rat) / 1000 := by
+  have e : ((m : Rat) / 1000) * 1000 = (m : Rat) := by ring
+  have e2 : (-((m : Rat) / 1000)) * 1000 = ((-m : Int) : Rat) := by push_cast; ring
+  unfold emRateMilliOf
+  split
+  · rw [e, Rat.floor_intCast]; simp [emRateRead, hm]
+  · rw [e2, Rat.floor_intCast]; simp [emRateRead, hm]
+
+/-- today's format on rates below 0.001 Å (and on 0): the word is 0, which the reader takes for "missing" and
+reports as 1 Å; 1.2345 Å comes back as 1.234 Å; −2.5 Å as −2.5 Å (truncation is toward zero) -/
+theorem em_rate_small_witness :
+    emRateRead (emRateMilliOf (1 / 2000)) = 1 ∧ emRateRead (emRateMilliOf 0) = 1 ∧
+    emRateRead (emRateMilliOf (2469 / 2000)) = 617 / 500 ∧ emRateRead (emRateMilliOf (-5 / 2)) = -5 / 2 ∧
+    emRateMilliOf (-12345 / 10000) = -1234 := by
+  decide +kernel
+
+example : (1 : Rat) / 1000 ≤ 2469 / 2000 ∧ emRateMilliOf (2469 / 2000) = 1234 := by decide +kernel
+
+
+/-! ## deepen3 — short requests; what an accepted request looks like -/
+
+/-- python slicing completes a short tuple with full axes, exactly like `_load_mrc` (`mrcSliceBox_short`) -/
+theorem pySliceArr_short (data : Array Nat) (nz ny nx : Nat) (s0 s1 : PySlice) :
+    pySliceArr ⟨[nz, ny, nx], data⟩ [s0]
+      = pySliceArr ⟨[nz, ny, nx], data⟩ [s0, ⟨some 0, some (ny : Int), none⟩, ⟨some 0, some (nx : Int), none⟩] ∧
+    pySliceArr ⟨[nz, ny, nx], data⟩ [s0, s1]
+      = pySliceArr ⟨[nz, ny, nx], data⟩ [s0, s1, ⟨some 0, some (nx : Int), none⟩] := by
+  have full : ∀ n : Nat, pyIndices n ⟨none, none, none⟩ = pyIndices n ⟨some 0, some (n : Int), none⟩ := by
+    intro n
+    have h2 : ¬ ((n : Int) < 0) := by omega
+    simp [pyIndices, h2]
+  constructor <;>
+    simp [pySliceArr, List.range_succ, full]
+
+/-- **an MRC request of one leading slice** (what tiling along the slowest axis asks for) is read like python slices it -/
+theorem mrc_one_slice_eq_python_slicing (pre post : Bytes) (b nz ny nx : Nat) (data : List Nat)
+    (z0 z1 : Nat) (s0 : Option Int) (h0 : s0 = none ∨ s0 = some 1)
+    (hlen : data.length = nz * ny * nx) (hv : ∀ v ∈ data, v < 256 ^ b) (hz : z0 ≤ z1 ∧ z1 ≤ nz) :
+    ∃ r r', mrcLoadSlices (pre ++ payload b data ++ post) pre.length [nz, ny, nx] b [⟨some (z0 : Int), some (z1 : Int), s0⟩] = .ok r ∧
+      pySliceArr ⟨[nz, ny, nx], data.toArray⟩ [⟨some (z0 : Int), some (z1 : Int), s0⟩] = .ok r' ∧
+      r.shape = r'.shape ∧ r.shape = [z1 - z0, ny, nx] ∧
+      ∀ i j k, i < z1 - z0 → j < ny → k < nx → r.getD [i, j, k] 0 = r'.getD [i, j, k] 0 := by
+  obtain ⟨r, r', hr, hr', hs, hg⟩ := mrc_slices_eq_python_slicing pre post b nz ny nx data z0 z1 0 ny 0 nx s0 none none h0
+    (Or.inl rfl) (Or.inl rfl) hlen hv hz ⟨Nat.zero_le _, Nat.le_refl _⟩ ⟨Nat.zero_le _, Nat.le_refl _⟩
+  refine ⟨r, r', ?_, ?_, hs, ?_, ?_⟩
+  · unfold mrcLoadSlices at hr ⊢
+    rw [(mrcSliceBox_short _ ⟨none, none, none⟩ ⟨none, none, none⟩ ⟨none, none, none⟩ nz ny nx).1]
+    exact hr
+  · rw [(pySliceArr_short data.toArray nz ny nx _ ⟨none, none, none⟩).1]
+    exact hr'
+  · obtain ⟨r0, hr0, hs0, _⟩ := loadSubset_eq_slice pre post b nz ny nx data z0 z1 0 ny 0 nx hlen hv hz
+      ⟨Nat.zero_le _, Nat.le_refl _⟩ ⟨Nat.zero_le _, Nat.le_refl _⟩
+    have : mrcLoadSlices (pre ++ payload b data ++ post) pre.length [nz, ny, nx] b
+        [⟨some (z0 : Int), some (z1 : Int), s0⟩, ⟨some ((0 : Nat) : Int), some (ny : Int), none⟩, ⟨some ((0 : Nat) : Int), some (nx : Int), none⟩] = .ok r0 := by
+      simpa [mrcLoadSlices, mrcSliceBox, sliceBounds, List.range_succ] using hr0
+    rw [hr] at this
+    injection this with this
+    subst this
+    simpa using hs0
+  · intro i j k hi hj hk
+    exact hg i j k hi (by simpa using hj) (by simpa using hk)
+
+/-- **what an accepted EM request looks like**: if `_load_em` returns data for three slices, all six bounds were given
+and either lie inside the volume (`0 ≤ start ≤ stop ≤ n`) or have the volume's extents (the shortcut) -/
+theorem em_slices_ok_box (f : Bytes) (header b nz ny nx : Nat) (s0 s1 s2 : PySlice) (r : Arr Nat)
+    (h : emLoadSlices f header [nz, ny, nx] b [s0, s1, s2] = .ok r) :
+    ∃ z0 z1 y0 y1 x0 x1 : Int,
+      (s0.start = some z0 ∧ s0.stop = some z1 ∧ s1.start = some y0 ∧ s1.stop = some y1 ∧ s2.start = some x0 ∧ s2.stop = some x1) ∧
+      (((0 ≤ z0 ∧ z0 ≤ z1 ∧ z1 ≤ nz) ∧ (0 ≤ y0 ∧ y0 ≤ y1 ∧ y1 ≤ ny) ∧ (0 ≤ x0 ∧ x0 ≤ x1 ∧ x1 ≤ nx)) ∨
+       (z1 - z0 = nz ∧ y1 - y0 = ny ∧ x1 - x0 = nx ∧ r.shape = [nz, ny, nx])) := by
+  rcases s0 with ⟨_ | z0, _ | z1, t0⟩ <;> rcases s1 with ⟨_ | y0, _ | y1, t1⟩ <;> rcases s2 with ⟨_ | x0, _ | x1, t2⟩ <;>
+    first
+    | (exfalso; simp [emLoadSlices, emSliceBox, sliceBounds] at h; done)
+    | skip
+  refine ⟨z0, z1, y0, y1, x0, x1, ⟨rfl, rfl, rfl, rfl, rfl, rfl⟩, ?_⟩
+  have h' : loadSubset f header [nz, ny, nx] b [(z0, z1), (y0, y1), (x0, x1)] = .ok r := by
+    simpa [emLoadSlices, emSliceBox, sliceBounds] using h
+  exact loadSubset_ok_box f header b z0 z1 y0 y1 x0 x1 nz ny nx r h'
+
+example := mrc_one_slice_eq_python_slicing (List.replicate 1024 0) [] 2 2 3 4 (List.range 24) 1 2 none (Or.inl rfl)
+    (by decide) (by decide) (by decide)
+example : mrcLoadSlices (payload 1 (List.range 24)) 0 [2, 3, 4] 1 [⟨some 1, some 2, none⟩]
+    = .ok ⟨[1, 3, 4], #[12, 13, 14, 15, 16, 17, 18, 19, 20, 21, 22, 23]⟩ := rfl
+example : emLoadSlices (payload 1 (List.range 24)) 0 [2, 3, 4] 1 [⟨some 1, some 2, none⟩, ⟨some 0, some 1, some 7⟩, ⟨some 2, some 4, none⟩]
+    = .ok ⟨[1, 1, 2], #[14, 15]⟩ := rfl
+
+/-- **`_validate_slices` for any rank, exactly**: a box is accepted iff it has one entry per axis and every bound lies
+in `[0, n]` (`start ≤ stop` is *not* asked for; the binary reader refuses that later, numpy returns an empty axis);
+`validate_sound` is the 3-D corollary -/
+theorem validateSlices_none_iff (box : Box) (shape : List Nat) :
+    validateSlices box shape = none ↔
+      box.length = shape.length ∧ ∀ p ∈ List.zip box shape, (0 ≤ p.1.1 ∧ p.1.1 ≤ (p.2 : Int)) ∧ (0 ≤ p.1.2 ∧ p.1.2 ≤ (p.2 : Int)) := by
+  unfold validateSlices
+  constructor
+  · intro h
+    split at h
+    · simp at h
+    · rename_i hl
+      split at h
+      · simp at h
+      · rename_i hex
+        split at h
+        · simp at h
+        · rename_i hneg
+          refine ⟨by simpa using hl, ?_⟩
+          intro p hp
+          have h1 : ¬ (decide (p.1.2 > (p.2 : Int)) || decide (p.1.1 > (p.2 : Int))) = true := by
+            intro hc
+            exact hex (List.any_eq_true.mpr ⟨p, hp, by simpa using hc⟩)
+          have h2 : ¬ (decide (p.1.2 < 0) || decide (p.1.1 < 0)) = true := by
+            intro hc
+            exact hneg (List.any_eq_true.mpr ⟨p.1, (List.of_mem_zip hp).1, hc⟩)
+          simp at h1 h2
+          omega
+  · rintro ⟨hl, hall⟩
+    rw [if_neg (by simpa using hl)]
+    rw [if_neg]
+    · rw [if_neg]
+      intro hc
+      obtain ⟨s, hs, hc⟩ := List.any_eq_true.mp hc
+      obtain ⟨i, hi, rfl⟩ := List.getElem_of_mem hs
+      have hi' : i < shape.length := by omega
+      have hp : (box[i], shape[i]) ∈ List.zip box shape := by
+        rw [List.mem_iff_getElem]
+        exact ⟨i, by simp [List.length_zip]; omega, by simp⟩
+      have := hall _ hp
+      simp only at this
+      simp at hc
+      omega
+    · intro hc
+      obtain ⟨p, hp, hc⟩ := List.any_eq_true.mp hc
+      have := hall p hp
+      simp at hc
+      omega
+
+example : validateSlices [(0, 2), (3, 1)] [2, 3] = none ∧ validateSlices [(0, 5)] [5] = none ∧
+    validateSlices [(0, 1), (0, 1), (0, 1), (0, 2)] [1, 1, 1, 1] = some "Exceeds" ∧ validateSlices [] [] = none := by decide
+
+/-- the same for every origin: when the origin words are within 1e-8 of zero and a start index is not zero, the
+origin reported is `start × rate`, taken through the permutation as well -/
+theorem mrcReadCrs_permuted_exact (crs : List Nat)
+    (hcrs : crs ∈ [[0, 1, 2], [0, 2, 1], [1, 0, 2], [1, 2, 0], [2, 0, 1], [2, 1, 0]])
+    (nz ny nx mz my mx mode nsymbt : Nat) (ax ay az : Int) (cx cy cz ox oy oz : Rat) :
+    mrcReadCrs ⟨[nx, ny, nz], mode, [ax, ay, az], [mx, my, mz], [cx, cy, cz], crs.map (· + 1), [ox, oy, oz], nsymbt⟩
+      = .ok ⟨permute crs [nz, ny, nx] 0,
+             permute crs (if allTiny [oz, oy, ox] && !([az, ay, ax].all (· == 0))
+               then [(az : Rat) * (cz / mz), (ay : Rat) * (cy / my), (ax : Rat) * (cx / mx)] else [oz, oy, ox]) 0,
+             [cz / mz, cy / my, cx / mx], 1024 + nsymbt, crs⟩ := by
+  simp only [List.mem_cons, List.not_mem_nil, or_false] at hcrs
+  rcases hcrs with rfl | rfl | rfl | rfl | rfl | rfl <;>
+  · unfold mrcReadCrs mrcRead
+    simp only [List.map_cons, List.map_nil, List.reverse_cons, List.reverse_nil, List.nil_append, List.cons_append,
+      List.zipWith_cons_cons, List.zipWith_nil_right, zipDiv, Nat.add_sub_cancel]
+    cases hc : (allTiny [oz, oy, ox] && !([az, ay, ax].all (· == 0))) <;> simp [permute]
+
+example : (match mrcReadCrs ⟨[4, 3, 2], 2, [1, 2, 3], [4, 3, 2], [4, 6, 6], [3, 1, 2], [0, 0, 0], 0⟩ with
+      | .ok p => (p.shape, p.origin, p.rate) | .err _ => ([], [], [])) = ([4, 2, 3], [1, 9, 4], [3, 2, 1]) := by
+  decide +kernel
+
+/-! ## deepen3 — `use_memmap` on compressed input -/
+
+/-- a memory-mapped read is granted exactly for files without the gzip magic number: always for a plain EM file,
+never for anything written through gzip, and for a plain MRC file unless `nx ≡ 35615 (mod 65536)` (the known finding) -/
+theorem effMemmap_spec (gz gunz : Bytes → Bytes) (hc : GzipContract gz gunz) (code b : Nat) (shape : List Nat) (rate : Int)
+    (data : List Nat) (content : Bytes) (nx : Nat) (rest : Bytes) :
+    effMemmap (emEncode code b shape rate data) true = true ∧
+    effMemmap (writeMaybeGz gz true content) true = false ∧
+    (effMemmap (leBytes 4 nx ++ rest) true = true ↔ nx % 65536 ≠ 35615) ∧
+    (∀ f, effMemmap f false = false) := by
+  refine ⟨by simp [effMemmap, em_not_gz], by simp [effMemmap, writeMaybeGz, hc.magic], ?_, fun f => by simp [effMemmap]⟩
+  have h := mrc_gz_iff nx rest
+  cases hg : isGz (leBytes 4 nx ++ rest)
+  · simp only [effMemmap, hg, Bool.not_false, Bool.and_self, true_iff]
+    intro h'
+    rw [h.mpr h'] at hg
+    exact absurd hg (by decide)
+  · simp only [effMemmap, hg, Bool.not_true, Bool.and_false, Bool.false_eq_true, false_iff, ne_eq, not_not]
+    exact h.mp hg
+
+example : effMemmap (leBytes 4 64 ++ [0]) true = true ∧ effMemmap (leBytes 4 35615 ++ [0]) true = false ∧
+    effMemmap [31, 139, 8] true = false := by decide
+
+
+/-! ## deepen3 — sub-boxes through the gzip layer; the two slicing references agree -/
+
+/-- **a sub-box of an EM file written through `to_file(…, gzip)` — compressed or not — is the slice**, for every
+compressor meeting the gzip contract: the reader sniffs the magic number, gunzips into memory and runs the same
+row loop on the bytes written -/
+theorem em_gz_subset_eq_slice (gz gunz : Bytes → Bytes) (hc : GzipContract gz gunz) (gzip : Bool)
+    (code b nz ny nx : Nat) (rate : Int) (data : List Nat) (hb : 0 < b)
+    (z0 z1 y0 y1 x0 x1 : Nat)
+    (hlen : data.length = nz * ny * nx) (hv : ∀ v ∈ data, v < 256 ^ b)
+    (hz : z0 ≤ z1 ∧ z1 ≤ nz) (hy : y0 ≤ y1 ∧ y1 ≤ ny) (hx : x0 ≤ x1 ∧ x1 ≤ nx) :
+    ∃ r, loadSubsetExact (openMaybeGz gunz (writeMaybeGz gz gzip (emEncode code b [nz, ny, nx] rate data))) 512 [nz, ny, nx] b
+          [((z0 : Int), (z1 : Int)), ((y0 : Int), (y1 : Int)), ((x0 : Int), (x1 : Int))] = .ok r ∧
+      r.shape = [z1 - z0, y1 - y0, x1 - x0] ∧
+      ∀ i j k, i < z1 - z0 → j < y1 - y0 → k < x1 - x0 →
+        r.getD [i, j, k] 0 = (⟨[nz, ny, nx], data.toArray⟩ : Arr Nat).getD [z0 + i, y0 + j, x0 + k] 0 := by
+  rw [open_write_maybe_gz gz gunz hc gzip _ (em_not_gz _ _ _ _ _)]
+  have h := loadSubsetExact_eq_slice (emHeader code [nz, ny, nx] rate) [] b nz ny nx data hb z0 z1 y0 y1 x0 x1 hlen hv hz hy hx
+  rw [emHeader_length, List.append_nil] at h
+  exact h
+
+/-- the same for an MRC file (any mode's item size, any extended header) whose first dimension word does not carry the
+gzip magic number (`nx ≢ 35615 mod 65536`, the known finding) -/
+theorem mrc_gz_subset_eq_slice (gz gunz : Bytes → Bytes) (hc : GzipContract gz gunz) (gzip : Bool)
+    (hdrRest ext : Bytes) (hh : hdrRest.length = 1020) (b nz ny nx : Nat) (hnx : nx % 65536 ≠ 35615) (data : List Nat) (hb : 0 < b)
+    (z0 z1 y0 y1 x0 x1 : Nat)
+    (hlen : data.length = nz * ny * nx) (hv : ∀ v ∈ data, v < 256 ^ b)
+    (hz : z0 ≤ z1 ∧ z1 ≤ nz) (hy : y0 ≤ y1 ∧ y1 ≤ ny) (hx : x0 ≤ x1 ∧ x1 ≤ nx) :
+    ∃ r, loadSubsetExact (openMaybeGz gunz (writeMaybeGz gz gzip (leBytes 4 nx ++ (hdrRest ++ ext ++ payload b data))))
+          (1024 + ext.length) [nz, ny, nx] b
+          [((z0 : Int), (z1 : Int)), ((y0 : Int), (y1 : Int)), ((x0 : Int), (x1 : Int))] = .ok r ∧
+      r.shape = [z1 - z0, y1 - y0, x1 - x0] ∧
+      ∀ i j k, i < z1 - z0 → j < y1 - y0 → k < x1 - x0 →
+        r.getD [i, j, k] 0 = (⟨[nz, ny, nx], data.toArray⟩ : Arr Nat).getD [z0 + i, y0 + j, x0 + k] 0 := by
+  rw [mrc_open_write gz gunz hc gzip nx _ hnx]
+  have h := loadSubsetExact_eq_slice (leBytes 4 nx ++ hdrRest ++ ext) [] b nz ny nx data hb z0 z1 y0 y1 x0 x1 hlen hv hz hy hx
+  simp only [List.append_nil, List.length_append, length_leBytes, hh] at h
+  have e : leBytes 4 nx ++ (hdrRest ++ ext ++ payload b data) = leBytes 4 nx ++ hdrRest ++ ext ++ payload b data := by
+    simp [List.append_assoc]
+  rw [e]
+  have e2 : 4 + 1020 + ext.length = 1024 + ext.length := by omega
+  rw [e2] at h
+  exact h
+
+/-- for in-range unit-step requests the numpy-semantics model (`pySliceArr`, what the HDF5 path is compared with) is
+the reference `sliceArr` of the sub-box theorems -/
+theorem pySliceArr_eq_sliceArr (data : Array Nat) (nz ny nx z0 z1 y0 y1 x0 x1 : Nat)
+    (hz : z0 ≤ z1 ∧ z1 ≤ nz) (hy : y0 ≤ y1 ∧ y1 ≤ ny) (hx : x0 ≤ x1 ∧ x1 ≤ nx) :
+    ∃ r, pySliceArr ⟨[nz, ny, nx], data⟩
+        [⟨some (z0 : Int), some (z1 : Int), none⟩, ⟨some (y0 : Int), some (y1 : Int), none⟩, ⟨some (x0 : Int), some (x1 : Int), none⟩] = .ok r ∧
+      r.shape = (sliceArr ⟨[nz, ny, nx], data⟩ [((z0 : Int), (z1 : Int)), ((y0 : Int), (y1 : Int)), ((x0 : Int), (x1 : Int))]).shape ∧
+      ∀ i j k, i < z1 - z0 → j < y1 - y0 → k < x1 - x0 →
+        r.getD [i, j, k] 0 =
+          (sliceArr ⟨[nz, ny, nx], data⟩ [((z0 : Int), (z1 : Int)), ((y0 : Int), (y1 : Int)), ((x0 : Int), (x1 : Int))]).getD [i, j, k] 0 := by
+  obtain ⟨r, hr, hs, hg⟩ := pySliceArr_canonical data nz ny nx z0 z1 y0 y1 x0 x1 none none none (Or.inl rfl) (Or.inl rfl) (Or.inl rfl) hz hy hx
+  refine ⟨r, hr, ?_, ?_⟩
+  · rw [hs]; simp [sliceArr, Arr.ofFn, boxShape]
+  · intro i j k hi hj hk
+    rw [hg i j k hi hj hk, sliceArr_getD _ z0 z1 y0 y1 x0 x1 i j k hi hj hk]
+
+example (gz gunz : Bytes → Bytes) (hc : GzipContract gz gunz) :=
+  em_gz_subset_eq_slice gz gunz hc true 5 4 2 3 4 1000 (List.range 24) (by decide) 1 2 0 2 1 3 (by decide) (by decide) (by decide) (by decide) (by decide)
+example (gz gunz : Bytes → Bytes) (hc : GzipContract gz gunz) :=
+  mrc_gz_subset_eq_slice gz gunz hc true (List.replicate 1020 0) [1, 2] List.length_replicate 2 2 3 4 (by decide) (List.range 24) (by decide)
+    1 2 0 2 1 3 (by decide) (by decide) (by decide) (by decide) (by decide)
+example : GzipContract (fun x => [31, 139] ++ x) (fun x => x.drop 2) := ⟨fun x => by simp [isGz], fun x => by simp⟩
+
+theorem mapM_map_congr {α β γ : Type} (f : β → Option γ) (g g' : α → β) (h : ∀ i, f (g i) = f (g' i)) :
+    ∀ l : List α, (l.map g).mapM f = (l.map g').mapM f
+  | [] => rfl
+  | a :: l => by simp only [List.map_cons, List.mapM_cons, h a, mapM_map_congr f g g' h l]
+
+/-- **the step of a slice never reaches the binary readers**: for MRC and EM the outcome of a request (data or
+refusal) is the same for every choice of the three steps — whereas numpy / HDF5 honour them
+(`shifted_full_box_and_step_witness`) -/
+theorem binary_readers_ignore_step (f : Bytes) (header b : Nat) (shape : List Nat)
+    (a0 b0 a1 b1 a2 b2 s0 s1 s2 t0 t1 t2 : Option Int) :
+    emLoadSlices f header shape b [⟨a0, b0, s0⟩, ⟨a1, b1, s1⟩, ⟨a2, b2, s2⟩]
+      = emLoadSlices f header shape b [⟨a0, b0, t0⟩, ⟨a1, b1, t1⟩, ⟨a2, b2, t2⟩] ∧
+    mrcLoadSlices f header shape b [⟨a0, b0, s0⟩, ⟨a1, b1, s1⟩, ⟨a2, b2, s2⟩]
+      = mrcLoadSlices f header shape b [⟨a0, b0, t0⟩, ⟨a1, b1, t1⟩, ⟨a2, b2, t2⟩] := by
+  have hb : ∀ (a b s t : Option Int), sliceBounds ⟨a, b, s⟩ = sliceBounds ⟨a, b, t⟩ := by
+    intro a b s t; cases a <;> cases b <;> rfl
+  constructor
+  · simp only [emLoadSlices, emSliceBox, List.mapM_cons, List.mapM_nil, hb a0 b0 s0 t0, hb a1 b1 s1 t1, hb a2 b2 s2 t2]
+  · have hg : ∀ i : Nat, sliceBounds ((([⟨a0, b0, s0⟩, ⟨a1, b1, s1⟩, ⟨a2, b2, s2⟩] : List PySlice)).getD i ⟨some 0, some (shape.getD i 0 : Int), none⟩)
+        = sliceBounds ((([⟨a0, b0, t0⟩, ⟨a1, b1, t1⟩, ⟨a2, b2, t2⟩] : List PySlice)).getD i ⟨some 0, some (shape.getD i 0 : Int), none⟩) := by
+      intro i
+      match i with
+      | 0 => exact hb _ _ _ _
+      | 1 => exact hb _ _ _ _
+      | 2 => exact hb _ _ _ _
+      | _ + 3 => rfl
+    have hm : mrcSliceBox [⟨a0, b0, s0⟩, ⟨a1, b1, s1⟩, ⟨a2, b2, s2⟩] shape = mrcSliceBox [⟨a0, b0, t0⟩, ⟨a1, b1, t1⟩, ⟨a2, b2, t2⟩] shape := by
+      unfold mrcSliceBox
+      exact mapM_map_congr sliceBounds _ _ hg _
+    simp only [mrcLoadSlices, hm]
+
+example : emLoadSlices (payload 1 (List.range 24)) 0 [2, 3, 4] 1 [⟨some 0, some 1, some 2⟩, ⟨some 0, some 1, some 0⟩, ⟨some 0, some 4, some (-1)⟩]
+    = emLoadSlices (payload 1 (List.range 24)) 0 [2, 3, 4] 1 [⟨some 0, some 1, none⟩, ⟨some 0, some 1, none⟩, ⟨some 0, some 4, none⟩] :=
+  (binary_readers_ignore_step _ _ _ _ _ _ _ _ _ _ _ _ _ _ _ _).1
+
+
+/-- **a short sub-box under any axis order is completed in the caller's axes**: for each of the six
+`mapc/mapr/maps` orders, a request of one or two leading entries is the request completed with the full extents of
+the *returned* (transposed) volume's remaining axes — with `mrc_crs_subset_eq_slice`: it is that slice -/
+theorem mrcCrsBox_short (crs : List Nat)
+    (hcrs : crs ∈ [[0, 1, 2], [0, 2, 1], [1, 0, 2], [1, 2, 0], [2, 0, 1], [2, 1, 0]])
+    (a b : Int × Int) (n0 n1 n2 : Nat) :
+    mrcCrsBox crs [a] [n0, n1, n2]
+      = mrcCrsBox crs [a, (0, ((permute crs [n0, n1, n2] 0).getD 1 0 : Int)), (0, ((permute crs [n0, n1, n2] 0).getD 2 0 : Int))] [n0, n1, n2] ∧
+    mrcCrsBox crs [a, b] [n0, n1, n2]
+      = mrcCrsBox crs [a, b, (0, ((permute crs [n0, n1, n2] 0).getD 2 0 : Int))] [n0, n1, n2] := by
+  simp only [List.mem_cons, List.not_mem_nil, or_false] at hcrs
+  rcases hcrs with rfl | rfl | rfl | rfl | rfl | rfl <;>
+    simp [mrcCrsBox, permute, invPerm, List.range_succ, List.idxOf, List.findIdx_cons]
+
+example : mrcCrsBox [1, 2, 0] [(1, 2)] [2, 3, 4] = mrcCrsBox [1, 2, 0] [(1, 2), (0, 4), (0, 2)] [2, 3, 4] ∧
+    permute [1, 2, 0] [2, 3, 4] 0 = [3, 4, 2] := by decide
+
+/-- **the numpy-semantics model for every request** (None, negative, clipped, any positive step): extents
+`ceil((stop - start) / step)` of the normalised slices, element `(i, j, k)` is element
+`(start₀ + i·step₀, start₁ + j·step₁, start₂ + k·step₂)` of the volume — which lies inside it (`pyIndices_inside`) -/
+theorem pySliceArr_general (data : Array Nat) (nz ny nx : Nat) (s0 s1 s2 : PySlice) (t0 t1 t2 : Nat × Nat × Nat)
+    (h0 : pyIndices nz s0 = some t0) (h1 : pyIndices ny s1 = some t1) (h2 : pyIndices nx s2 = some t2) :
+    ∃ r, pySliceArr ⟨[nz, ny, nx], data⟩ [s0, s1, s2] = .ok r ∧
+      r.shape = [(pyRange t0).length, (pyRange t1).length, (pyRange t2).length] ∧
+      ∀ i j k, i < (pyRange t0).length → j < (pyRange t1).length → k < (pyRange t2).length →
+        r.getD [i, j, k] 0 = (⟨[nz, ny, nx], data⟩ : Arr Nat).getD [t0.1 + i * t0.2.2, t1.1 + j * t1.2.2, t2.1 + k * t2.2.2] 0 := by
+  unfold pySliceArr
+  simp only [List.length_cons, List.length_nil, Nat.lt_irrefl, if_false, List.range_succ, List.range_zero,
+    List.nil_append, List.cons_append, List.map_cons, List.map_nil, List.getD_cons_zero, List.getD_cons_succ,
+    Nat.reduceAdd, Nat.zero_add, h0, h1, h2]
+  simp only [List.mapM_cons, List.mapM_nil, id, Option.pure_def, Option.bind_eq_bind, Option.bind_some]
+  refine ⟨_, rfl, rfl, ?_⟩
+  intro i j k hi hj hk
+  rw [Arr.getD_ofFn _ _ _ _ (by simp [inShape, hi, hj, hk])]
+  have e : ∀ (t : Nat × Nat × Nat) (i : Nat), i < (pyRange t).length → (pyRange t).getD i 0 = t.1 + i * t.2.2 := by
+    intro t i hi
+    unfold pyRange at hi ⊢
+    simp only [List.length_map, List.length_range] at hi
+    simp [List.getD_eq_getElem?_getD, hi]
+  have e0 := e t0 i hi
+  have e1 := e t1 j hj
+  have e2 := e t2 k hk
+  rw [List.getD_eq_getElem?_getD] at e0 e1 e2
+  simp [e0, e1, e2]
+
+example : ∃ r, pySliceArr ⟨[2, 3, 4], (List.range 24).toArray⟩ [⟨some (-1), none, none⟩, ⟨none, some (-2), none⟩, ⟨some 1, some 9, some 2⟩] = .ok r ∧
+    r.shape = [1, 1, 2] := by
+  obtain ⟨r, hr, hs, _⟩ := pySliceArr_general (List.range 24).toArray 2 3 4 ⟨some (-1), none, none⟩ ⟨none, some (-2), none⟩ ⟨some 1, some 9, some 2⟩
+    (3 - 2, 2, 1) (0, 1, 1) (1, 4, 2) (by decide) (by decide) (by decide)
+  exact ⟨r, hr, by rw [hs]; decide⟩
 
 end Pm.C08
